@@ -413,7 +413,8 @@ stream_total!(total_ctr64le_b8, 64, core_ctr64le, u64, U8, 8, 10);
 stream_total!(total_belt, 100, core_belt, u128, U16, 16, 2);
 stream_total!(t_total_belt_n17, 100, core_belt, u128, U16, 16, 17);
 cts_total!(total_cts_cbc_cs1_b1, 48, CbcCs1, U1, 1, U2, 4);
-cts_total!(total_cts_cbc_cs3_b1, 48, CbcCs3, U1, 1, U2, 4);
+cts_total!(total_cts_cbc_cs3_b1_w1, 48, CbcCs3, U1, 1, U1, 4);
+cts_total!(total_cts_cbc_cs2_b3_w1, 48, CbcCs2, U3, 3, U1, 8);
 cts_total!(total_cts_ecb_cs2_b1, 48, EcbCs2, U1, 1, U2, 4);
 cts_total!(total_cts_ecb_cs3_b3, 48, EcbCs3, U3, 3, U2, 8);
 
